@@ -204,6 +204,13 @@ def length_catalogue(rng):
     tws = {"model": "tian water content", "compositions": [0], "lithology": "sediment", "max distance slab top": 100e3}
     out.append(("option:lithology@slab", _slab(**{"composition models": [tws], "temperature models": [{"model": "uniform", "temperature": 700}]}),
                 _slab(**{"composition models": [dict(tws, lithology=rng.choice(["basalt", "gabro"]))], "temperature models": [{"model": "uniform", "temperature": 700}]})))
+    mc = {"model": "mass conserving", "density": 3300, "thermal conductivity": 3.3, "adiabatic heating": True, "spreading velocity": [[0, [[0.03, 0.03]]], [0, [[0.03, 0.03]]]],
+          "subducting velocity": [[0.03, 0.03], [0.03, 0.03]], "ridge coordinates": [[[-400e3, -100e3], [-400e3, 300e3]], [[-500e3, 300e3], [-500e3, 600e3]]],
+          "coupling depth": 80e3, "forearc cooling factor": 20, "taper distance": 100e3, "min distance slab top": -200e3, "max distance slab top": 300e3}
+    out.append(("option:reference model name", _slab(**{"temperature models": [dict(mc, **{"reference model name": "half space model"})]}),
+                _slab(**{"temperature models": [dict(mc, **{"reference model name": rng.choice(["plate", "half-space model", ""])})]})))
+    out.append(("mass-conserving:migration-times", _slab(**{"temperature models": [mc]}),
+                _slab(**{"temperature models": [dict(mc, **{"spreading velocity": rng.choice([0.03, [[0, [[0.03, 0.03, 0.03, 0.03]]]]])})]})))
     # arity
     out.append(("value-at-points:point-arity", _cont(**{"max depth": [[100e3, [[0, 0]]], [150e3, [[50e3, 50e3]]]]}), _cont(**{"max depth": [[100e3, [[0, 0]]], [150e3, [rng.choice([[50e3], []])]]]})))
     return out
